@@ -73,6 +73,7 @@ def main(tier, replay):
             fn = ('zz_verif_sym_%d.go' if t.endswith('_sym.go.tmpl') else 'zz_verif_t%d.go') % i
             open(os.path.join(pd, fn), 'w').write(txt)
         shutil.copy(intr_sym(did + '_pair', c.scratch), os.path.join(pd, 'zz_verif_i.go'))
+        write_pkg_manifest(pd, did + '_pair', PAIR_SYM, {'BASEPKG': bn, 'DECPKG': did})
         infos[did + '_pair'] = {'pkg': 'scratch/%s_pair' % did, 'dir': pd, 'name': did + '_pair', 'ok': True, 'canon': bases[bn].canon() + ' vs ' + prog.canon()}
         stubs = []
         for pk in (bn, did):
